@@ -229,7 +229,9 @@ pub fn install_fatal_handlers(path: &std::path::Path) {
         for sig in [libc::SIGABRT, libc::SIGSEGV, libc::SIGBUS, libc::SIGILL, libc::SIGFPE] {
             let mut sa: libc::sigaction = std::mem::zeroed();
             sa.sa_sigaction = on_fatal as usize;
-            sa.sa_flags = libc::SA_SIGINFO;
+            // SA_ONSTACK: std gives every thread it spawns an alternate signal stack (its own stack-overflow
+            // handler is installed at start-up), so the dump also works when the fault IS a stack overflow
+            sa.sa_flags = libc::SA_SIGINFO | libc::SA_ONSTACK;
             libc::sigemptyset(&mut sa.sa_mask);
             libc::sigaction(sig, &sa, std::ptr::null_mut());
         }
